@@ -6,6 +6,8 @@
 //   dbtool query <file.in>...                          load, then dump every entity through the C query
 //        interface, one line per fact (name keyed; see dump()).
 //   dbtool interleave <file.in>...                     like query, but performs by-name lookups between loads.
+//   dbtool firstlookup <kind> <name> <file.in>...      the lookup is the first query after the last load request
+//   dbtool query-reused-buffer <file.in>...            interrogate_request_database through one reused file-name buffer
 #include "interrogate_interface.h"
 #include "interrogate_request.h"
 #include "interrogateDatabase.h"
@@ -202,6 +204,36 @@ int main(int argc, char **argv) {
           cout << "LOOKUP-MISMATCH manifest_by_name " << esc(interrogate_manifest_name(m)) << " -> 0\n";
       }
     }
+    dump();
+    return 0;
+  }
+  if (mode == "firstlookup") {
+    // dbtool firstlookup <kind> <name> <file>...: every file but the last is requested and loaded; then the last file is requested and the
+    // VERY FIRST query afterwards is the by-name lookup (a name that only the last file defines): it must see the new file
+    string kind = argv[2];
+    const char *name = argv[3];
+    for (int i = 4; i < argc - 1; ++i) request(argv[i], 0);
+    int before = interrogate_number_of_types();
+    request(argv[argc - 1], 0);
+    int r = 0;
+    if (kind == "type_by_name") r = interrogate_get_type_by_name(name);
+    else if (kind == "type_by_scoped_name") r = interrogate_get_type_by_scoped_name(name);
+    else if (kind == "type_by_true_name") r = interrogate_get_type_by_true_name(name);
+    else if (kind == "element_by_name") r = interrogate_get_element_by_name(name);
+    else if (kind == "element_by_scoped_name") r = interrogate_get_element_by_scoped_name(name);
+    else if (kind == "manifest_by_name") r = interrogate_get_manifest_by_name(name);
+    cout << "FIRST " << kind << " " << (r != 0) << " types-before " << before << "\n";
+    return 0;
+  }
+  if (mode == "query-reused-buffer") {
+    // the public entry point interrogate_request_database with ONE buffer reused for every file name (the library must keep its own copy)
+    static char buf[4096];
+    for (int i = 2; i < argc; ++i) {
+      strncpy(buf, argv[i], sizeof(buf) - 1);
+      interrogate_request_database(buf);
+      memset(buf, 'x', 16);
+    }
+    buf[0] = 0;
     dump();
     return 0;
   }
